@@ -453,3 +453,144 @@ Definition hyps_b (n : net) (sl : list slinfo) (t : tree) : bool :=
   && forallb (fun j => memb j (lkeys (involved n sl t))) (lkeys (root_legs n sl))
   && forallb (fun kv => 0 <? snd kv) (szd n)
   && nodup_b (zd_keys (szd n)).
+
+(* ------------------------------------------------------------------ *)
+(* the same loop driven by a CHOICE FUNCTION (what `max(cost.size_dict, key=...)` is:
+   a function of the iteration, the current key and the current cost) with fuel;
+   used to state termination.  trial_step is one iteration of the loop body. *)
+Inductive step_res :=
+  | SRet (r : cache * (list ix * costs))
+  | SRaise (k : nat)
+  | SCont (ch : cache) (key : list ix) (cost : costs).
+Definition trial_step (fd : finder) (x : ix) (ch : cache) (key : list ix) (cost : costs) : step_res :=
+  if negb (zd_mem x (c_sd cost)) then SRaise E_ORACLE
+  else if memb x (f_forbidden fd) then SRaise E_FORBIDDEN
+  else
+    let nkey := key_ins x key in
+    let step :=
+      match cache_get nkey ch with
+      | Some nc => Some (nc, ch)
+      | None => match remove x cost with
+                | Some nc => Some (nc, ch ++ [(nkey, nc)])
+                | None => None
+                end
+      end in
+    match step with
+    | None => SRaise E_KEY
+    | Some (nc, ch') =>
+        if opt_test (f_tover fd) (over_gt nc) then SRet (ch', (key, cost))
+        else if opt_test (f_tslices fd) (slices_ge nc) then SRet (ch', (nkey, nc))
+        else if opt_test (f_tsize fd) (size_le nc) then SRet (ch', (nkey, nc))
+        else SCont ch' nkey nc
+    end.
+Fixpoint trial_loop_g (fd : finder) (choose : nat -> list ix -> costs -> ix) (fuel step : nat)
+    (ch : cache) (key : list ix) (cost : costs) : outcome (cache * (list ix * costs)) :=
+  match c_sd cost with
+  | [] => Raise E_MAX_EMPTY
+  | _ =>
+      match fuel with
+      | O => Stuck
+      | S fuel' =>
+          match trial_step fd (choose step key cost) ch key cost with
+          | SRet r => Ret r
+          | SRaise k => Raise k
+          | SCont ch' key' cost' => trial_loop_g fd choose fuel' (S step) ch' key' cost'
+          end
+      end
+  end.
+Definition trial_g (fd : finder) (choose : nat -> list ix -> costs -> ix) (fuel : nat) (ch : cache)
+  : outcome (cache * (list ix * costs)) :=
+  match cache_get [] ch with
+  | None => Raise E_KEY
+  | Some cost =>
+      if already_satisfied fd cost then Ret (ch, ([], cost))
+      else trial_loop_g fd choose fuel 0%nat ch [] cost
+  end.
+
+(* ------------------------------------------------------------------ *)
+(* target_overhead: the code evaluates `total_flops / original_flops > target` on floats,
+   the model compares exact rationals (over_gt).  over_safe_b is an executable sufficient
+   condition for both to agree (Proofs/SlicerFacts.v over_float_agrees): operands in
+   [1, 2^1000), and the exact quotient is either <= target or exceeds it by more than the
+   relative rounding error 2^-53 of a correctly rounded division. *)
+Definition FB : Z := 2 ^ 1000.
+Definition FP : Z := 2 ^ 53.
+Definition over_safe_b (c : costs) (t : Z * Z) : bool :=
+  let a := cc_total_flops c in
+  let b := c_orig c in
+  (1 <=? a) && (a <? FB) && (1 <=? b) && (b <? FB) && (0 <? snd t)
+  && ((a * snd t <=? fst t * b) || (fst t * b * FP <? a * snd t * (FP - 1))).
+(* every cost object whose overhead the search compared is a cache entry *)
+Definition search_over_safe_b (fd : finder) (oracles : list (list ix)) : bool :=
+  match f_tover fd with
+  | None => true
+  | Some t =>
+      match search_loop fd oracles (cache0 fd) with
+      | Ret (ch, _) => forallb (fun e => over_safe_b (snd e) t) ch
+      | _ => true
+      end
+  end.
+
+(* ------------------------------------------------------------------ *)
+(* per-call target overrides: search(max_repeats, temperature, target_size, target_overhead,
+   target_slices) hands its arguments to BOTH trial and best, each of which resolves them by
+   _maybe_default(attr, value): the argument when it is not None, else the construction-time
+   attribute.  So one call behaves like the finder with the effective targets, run on the
+   cache the object already holds (self.costs persists across calls). *)
+Definition maybe_default {A} (attr value : option A) : option A :=
+  match value with Some v => Some v | None => attr end.
+Definition with_overrides (fd : finder) (ots : option Z) (otov : option (Z * Z)) (otsl : option Z) : finder :=
+  mkFinder (f_cost0 fd) (f_forbidden fd)
+           (maybe_default (f_tsize fd) ots) (maybe_default (f_tover fd) otov) (maybe_default (f_tslices fd) otsl).
+(* one search(...) call on a finder whose cache is ch: new cache and the value of best *)
+Definition search_call (fd : finder) (ots : option Z) (otov : option (Z * Z)) (otsl : option Z)
+    (oracles : list (list ix)) (ch : cache) : outcome (cache * (list ix * costs)) :=
+  let fd' := with_overrides fd ots otov otsl in
+  match search_loop fd' oracles ch with
+  | Ret (ch', _) => match best fd' ch' with
+                    | Ret e => Ret (ch', e)
+                    | Raise k => Raise k
+                    | Stuck => Stuck
+                    end
+  | Raise k => Raise k
+  | Stuck => Stuck
+  end.
+
+Definition overrides := (option Z * (option (Z * Z) * option Z))%type.
+Definition obs_search_from (fd : finder) (oracles : list (list ix)) (ch : cache) :=
+  match search_loop fd oracles ch with
+  | Ret (ch', rs) =>
+      ((0%nat, (map obs_pred rs, (map (fun e => (fst e, obs_costs (snd e))) ch',
+               obs_outcome obs_pred (best fd ch')))), Some ch')
+  | Raise k => ((k, ([], ([], (k, None)))), None)
+  | Stuck => ((99%nat, ([], ([], (99%nat, None)))), None)
+  end.
+(* a sequence of search calls on one SliceFinder object; a call whose trials raise ends the
+   sequence (the harness stops there too); a call where only best raises keeps the cache *)
+Fixpoint obs_calls (fd : finder) (calls : list (overrides * list (list ix))) (ch : cache) :=
+  match calls with
+  | [] => []
+  | (ov, oracles) :: rest =>
+      let fd' := with_overrides fd (fst ov) (fst (snd ov)) (snd (snd ov)) in
+      let r := obs_search_from fd' oracles ch in
+      fst r :: match snd r with Some ch' => obs_calls fd rest ch' | None => [] end
+  end.
+(* the executable checks (scratch_b on every cache entry; over_safe_b w.r.t. the overhead
+   target of the CALL on every entry of the cache after that call) along such a sequence *)
+Fixpoint calls_check_b (n : net) (sl0 : list slinfo) (t : tree) (fd : finder)
+    (calls : list (overrides * list (list ix))) (ch : cache) : bool :=
+  match calls with
+  | [] => true
+  | (ov, oracles) :: rest =>
+      let fd' := with_overrides fd (fst ov) (fst (snd ov)) (snd (snd ov)) in
+      match search_loop fd' oracles ch with
+      | Ret (ch', _) =>
+          forallb (scratch_b n sl0 t) ch'
+          && match f_tover fd' with
+             | Some tv => forallb (fun e => over_safe_b (snd e) tv) ch'
+             | None => true
+             end
+          && calls_check_b n sl0 t fd rest ch'
+      | _ => true
+      end
+  end.
